@@ -88,6 +88,7 @@ def gen_cell(g, k, tier):
         else:
             cfg["opts"] = {"adaptive": True, "target_efficiency": 0.6}
     cfg["leak"] = leak
+    cfg["reuse_sampler"] = bool(sampler in ("smc", "emcee_smc") and k % 4 == 1)
     c0 = t.coords[0]
     if c0.kind == "box" and g.random() < 0.25 and sampler != "blackjax_smc":
         # likelihood with a hard cut inside the prior support (zero-weight particles); truth: gaussian truncated to [cut, hi]
@@ -102,9 +103,26 @@ def cases(tier, seed):
     return [{"k": k, "seed": [seed, 1, k], "tier": tier} for k in range(n)]
 
 
-def one_replicate(cfg, t, rep_seed):
+def one_replicate(cfg, t, rep_seed, reuse=None):
     c = dict(cfg, flow_seed=int(rep_seed), rng_seed=int(rep_seed) + 1)
+    if reuse is not None and reuse.get("aspire") is not None:
+        # replicate on the very same sampler object (its generators simply continue): state carried across calls
+        import inspect
+
+        a = reuse["aspire"]
+        A = a.flow.support_mass(t.lo, t.hi)
+        kw = recorded.sample_kwargs(c)
+        for k in ("preconditioning", "preconditioning_kwargs", "rng"):
+            kw.pop(k, None)
+        kw = {k: v for k, v in kw.items() if k in inspect.signature(a.sampler.sample).parameters}
+        s = a.sampler.sample(cfg["n"], **kw)
+        x = np.asarray(to_np(s.x), dtype=float)
+        w = np.full(len(x), 1.0 / len(x))
+        logz = float(to_np(s.log_evidence))
+        return _stats(cfg, t, x, w, logz), A, 1.0 / float(np.sum(w**2))
     t_, a, probe = recorded.build(c)
+    if reuse is not None:
+        reuse["aspire"] = a
     A = a.flow.support_mass(t.lo, t.hi)
     if cfg["sampler"] == "importance":
         s = a.sample_posterior(cfg["n"], sampler="importance")
@@ -128,6 +146,11 @@ def one_replicate(cfg, t, rep_seed):
         import jax
 
         jax.clear_caches()  # every run jit-compiles fresh closures; do not let the executables pile up
+    ess = 1.0 / float(np.sum(w**2))
+    return _stats(cfg, t, x, w, logz), A, ess
+
+
+def _stats(cfg, t, x, w, logz):
     stats = {"z": math.exp(logz - truth_target(cfg, t)[1])}
     for j, cdesc in enumerate(t.coords):
         if cdesc.kind == "box":
@@ -137,8 +160,7 @@ def one_replicate(cfg, t, rep_seed):
         else:
             stats[f"cos{j}"] = float(np.sum(w * np.cos(x[:, j] - cdesc.mu)))
             stats[f"sin{j}"] = float(np.sum(w * np.sin(x[:, j] - cdesc.mu)))
-    ess = 1.0 / float(np.sum(w**2))
-    return stats, A, ess
+    return stats
 
 
 def truth_target(cfg, t):
@@ -168,8 +190,9 @@ def stage(cfg, t, R, base_seed, counters):
     reps = []
     A = None
     esss = []
+    reuse = {} if cfg.get("reuse_sampler") else None
     for r in range(R):
-        st, A, ess = one_replicate(cfg, t, base_seed + 1000 * r + 7)
+        st, A, ess = one_replicate(cfg, t, base_seed + 1000 * r + 7, reuse=reuse)
         reps.append(st)
         esss.append(ess)
         counters["replicates"] += 1
@@ -228,7 +251,7 @@ def run_case(case):
     base = int(g.integers(1, 10**8))
     res, A = stage(cfg, t, R, base, counters)
     counters["statistics_judged"] += len(res)
-    shown = {"sampler": cfg["sampler"], "xp": cfg["xp"], "n": cfg["n"], "opts": cfg["opts"], "precond": cfg["precond"], "flow": cfg["flow"], "cut_below": cfg.get("cut_below"), "target": t.describe()["coords"], "A": round(A, 4)}
+    shown = {"sampler": cfg["sampler"], "xp": cfg["xp"], "n": cfg["n"], "opts": cfg["opts"], "precond": cfg["precond"], "flow": cfg["flow"], "cut_below": cfg.get("cut_below"), "replicates_on_one_sampler_object": cfg.get("reuse_sampler"), "target": t.describe()["coords"], "A": round(A, 4)}
     where = f"{shown}"
     labels1 = classify(cfg, res, A)
     final = res
